@@ -204,6 +204,28 @@ def pair4(P, R, L):
                             break
         R.check("PAIR-4", key, ok, cs.where(), "true edge always reaches schedule_task(Compaction)",
                 "; ".join(why) or "all true-edge paths schedule (sites at bbs %s)" % sched)
+    # converse: a compaction task is only ever queued over the true edge of should_schedule_compaction — that call is what
+    # sets background_compaction_scheduled, the flag Drop / waiters rely on to know that background work is in flight
+    for p_, b in sorted(P.bodies.items()):
+        if p_.startswith("compaction::worker::"):
+            continue
+        ss = [c for c in b.calls() if not b.is_cleanup(c.bb) and c.name == SCHEDULE]
+        if not ss:
+            continue
+        R.analysed(b)
+        edges = []
+        for cs in b.calls():
+            if cs.name == SHOULD and not b.is_cleanup(cs.bb) and not cs.dest["p"]:
+                for t in bool_tests(b, cs.dest["l"]):
+                    edges += [(t.bb, x) for x in t.ok]
+        for c in ss:
+            kind = " ".join(str(o.name) for o in origins(b, c.args[1])) if len(c.args) > 1 else ""
+            if "Terminate" in kind or "Shutdown" in kind:
+                continue
+            ok = bool(edges) and b.must_pass(c.bb, through_edges=edges)
+            R.check("PAIR-4", "%s|schedule-only-after-flag-set" % p_, ok, c.where(),
+                    "schedule_task(Compaction) is reached only over the true edge of should_schedule_compaction (which sets the scheduled flag)",
+                    "true edges %d" % len(edges))
     # the worker loop re-queues when compaction_task returns true
     for cs in P.callers_of(TASK):
         b = cs.body
